@@ -24,6 +24,8 @@ type vfPairOpt struct {
 	KeepOpen bool
 	// FaultsDuringApp keeps the fault plan active after both handshakes completed.
 	FaultsDuringApp bool
+	// Snaps: further durations that read deadlines may be snapped to (configured retransmission timeouts)
+	Snaps []time.Duration
 	// InPlace: the endpoints use the caller's Config objects themselves (the virtual timer factory is
 	// written into them) instead of clones, for checks about state a Config accumulates through use
 	InPlace bool
@@ -59,6 +61,17 @@ func vfRunPair(ccfg, scfg *Config, opt vfPairOpt) *vfPair {
 	srv := Server(sim.ends[1], sim.ends[0].addr, sc)
 	if opt.Prepare != nil {
 		opt.Prepare(sim, cli, srv)
+	}
+	sim.snaps = append(sim.snaps, opt.Snaps...)
+	// The library measures its dwell period (answering retransmissions of the peer's last flight after
+	// completion) on the wall clock; under virtual time the deadline is aged by what the simulated
+	// clock advances, so that the period means what it says.
+	sim.onAdvance = func(d time.Duration) {
+		for _, cn := range []*Conn{cli, srv} {
+			if !cn.dwellDeadline.IsZero() {
+				cn.dwellDeadline = cn.dwellDeadline.Add(-d)
+			}
+		}
 	}
 	r := &vfPair{Cli: cli, Srv: srv, Sim: sim}
 	cdone, sdone := make(chan struct{}), make(chan struct{})
